@@ -24,7 +24,10 @@ def main():
         print("== %s%s: status=%s paths=%d completed=%d obligations=%d bad=%d canary=%s outcomes=%s  %.2fs" % (
             c.qualname, "[%s]" % c.variant if c.variant else "", run.status, run.paths, run.completed_paths, n, len(bad), run.canary_ok, run.outcomes, time.time() - t))
         if run.message:
-            print("   ", run.message)
+            lines = run.message.splitlines()
+            print("   ", lines[0])
+            for l in lines[-7:]:
+                print("      ", l[:200])
         seen = set()
         for k, r in bad:
             if k in seen or len(seen) > 8:
